@@ -54,19 +54,17 @@ def config(ctx):
             rt=dict(seconds=1, from_plan=48, long_num=16, long_depth=50, long_ids=8),
             per_proc=40, nproc=3)
     return dict(
-        plans=[Plan("q1i3", "S_q1", 25, workers=16, nproc=12, max_inst=3, max_pw=1),
-               Plan("q1i2s", "S_q1", 25, workers=16, nproc=12, max_inst=2, max_pw=1, stray=1),
-               Plan("t1di4", "S_t1d", 40, workers=16, nproc=12, max_inst=4, max_pw=1, stray=1),
-               Plan("t1ai3", "S_t1a", 8, workers=8, nproc=6, max_inst=3, max_pw=0, pw_on=False, stray=1),
-               Plan("q1i3nt", "S_q1", 12, workers=16, nproc=12, max_inst=3, max_pw=1, timeout_on=False),
-               Plan("two", "S_t1d", 10, workers=8, nproc=6, ids="Ids2", max_inst=1, max_pw=0, pw_on=False)],
+        plans=[Plan("q1i3", "S_q1", 200, workers=16, nproc=12, max_inst=3, max_pw=1),
+               Plan("t1di4", "S_t1d", 150, workers=16, nproc=12, max_inst=4, max_pw=1, stray=1),
+               Plan("t1ai3", "S_t1a", 60, workers=8, nproc=8, max_inst=3, max_pw=0, pw_on=False, stray=1),
+               Plan("q1i3nt", "S_q1", 100, workers=16, nproc=12, max_inst=3, max_pw=1, timeout_on=False),
+               Plan("two", "S_t1d", 80, workers=8, nproc=8, ids="Ids2", max_inst=1, max_pw=0, pw_on=False)],
         long_mc=[("x2", [1, 2], dict(max_serial=3, workers=16)),
                  ("x2rt", [1, 2], dict(max_serial=2, real_time=True, workers=16)),
-                 ("x3", [1, 2, 3], dict(max_serial=2, workers=16)),
-                 ("x3rt", [1, 2, 3], dict(max_serial=2, real_time=True, workers=16))],
+                 ("x3", [1, 2, 3], dict(max_serial=2, workers=16))],
         long_gen=dict(jvms=8, num=8, depth=5000, ids=16), long_gen_nt=dict(jvms=2, num=8, depth=5000),
         very_long=dict(jvms=4, depth=40000, ids=24),
-        rt=dict(seconds=2, from_plan=400, long_num=120, long_depth=110, long_ids=12, also_seconds=1),
+        rt=dict(seconds=2, from_plan=300, long_num=100, long_depth=110, long_ids=12, also_seconds=1),
         per_proc=40, nproc=12)
 
 
@@ -129,8 +127,8 @@ def run(ctx):
                             timeout_on=False, seed=ctx.seed * 100 + 30 + j) for j in range(nt["jvms"])] if nt else []
     if cfg["very_long"]:
         vl = cfg["very_long"]
-        f_gen += [pool.submit(C.long_generate, ctx, "v%d" % j, list(range(1, vl["ids"] + 1)), vl["depth"], 1,
-                              seed=ctx.seed * 100 + 50 + j, timeout=1200) for j in range(vl["jvms"])]
+        f_gen += [pool.submit(C.long_stream, ctx, "v%d" % j, list(range(1, vl["ids"] + 1)), vl["depth"],
+                              seed=ctx.seed * 100 + 50 + j) for j in range(vl["jvms"])]
 
     # ---- 2. per plan: replay with the hook, validate, report; the first plan also feeds the real-timer thread -------
     box = {}
